@@ -190,7 +190,7 @@ static void do_op(Cmd *c) {
         o_stat(st);
         if (st == CC_OK) { o(" "); O_LIST("arr"); for (size_t i = 0; i < cc_slist_size(l); i++) o_item(VAL(arr[i])); o_end();
             if (cc_slist_size(l) && block_size(arr) < cc_slist_size(l) * sizeof(void *)) o(" WALK=array-block");
-            if (default_mode) free(arr); else conf_free(arr); }   /* the harness (caller) releases the array */
+            if (ledger_find(&L_conf, arr) >= 0) conf_free(arr); else free(arr); }   /* the harness (caller) releases the array through its owner */
         o(" ");
     } else if (is_op(c, "foreach")) { cc_slist_foreach(l, cb_record); o("st=- "); o_cb(); o(" ");
     } else if (is_op(c, "filter_mut")) { o_stat(cc_slist_filter_mut(l, pred_even)); o(" ");
